@@ -36,6 +36,10 @@ func sliceArrayOperator(d *dataTreeNavigator, context Context, expressionNode *E
 		if relativeFirstNumber < 0 {
 			relativeFirstNumber = len(lhsNode.Content) + firstNumber
 		}
+		if relativeFirstNumber < 0 {
+			// further back than the start of the array
+			relativeFirstNumber = 0
+		}
 
 		secondNumber, err := getSliceNumber(d, context, lhsNode, expressionNode.RHS)
 		if err != nil {
